@@ -79,7 +79,7 @@ VecE(m, nq, hasdflt, emp, dflt) ==
      !.dflt = dflt]
 VectorsE(m) ==
   {VecE(m, q, d, emp, df) :
-     q \in {x \in {Len(m) - 1, Len(m), Len(m) + 1} : x >= 0},
+     q \in 0..(Len(m) + 1),
      d \in BOOLEAN, emp \in 0..(Len(m) + 1), df \in {"dflt", ""}}
 
 AllV == [j \in 1..(TMax - TMin + 1) |-> TMin + j - 1]
